@@ -112,6 +112,10 @@ Post(ev) ==
     [] op = "oblig" -> HoldsWith(ev.x.j, ev.x.defs)
     [] op = "exact_or_ulp" -> o.k = "f" /\ ExactOrUlp(o.v, ev.x.e, p)
     [] op = "int_eq" -> o.k = "z" /\ LET v == Ev(ev.x.e, 0) IN ZCmp(v[2], ZOne) = 0 /\ ZCmp(o.v, v[1]) = 0
+    [] op = "call_exit" -> \* C24: a call is closed by a return or by a documented exception within the work budget
+         \/ ev.x.exit = "return"
+         \/ (ev.x.exit = "raise" /\ ev.x.exc \in {"ValueError", "ZeroDivisionError", "NoConvergence", "NotImplementedError", "ComplexResult"})
+         \/ (ev.x.exit = "raise" /\ ev.x.harness)         \* ill-typed / out-of-context statement of the corpus: not a verdict about mpmath
     [] op = "none" -> TRUE
 
 (*************************** C17 / C33: constants ***************************)
